@@ -52,6 +52,8 @@ pub fn in_kinds(op: &str, params: &[u64]) -> Vec<char> {
         | "to_le_bits" | "to_le_bytes" | "sgn0" | "assert_lower_than_fixed" | "div_rem" | "bnot" | "lower_than_fixed"
         | "bounded" | "range2" => vec!['n'],
         "lincomb" | "add_and_mul" => vec!['n', 'n', 'n'],
+        // arithmetic with a chosen operand source: params = [opcode, has_m, m, mode, c]; mode 0: two witnesses
+        "arith_src" => vec!['n'; if params.get(3).copied().unwrap_or(0) == 0 { 2 } else { 1 }],
         "and" | "or" | "xor" => vec!['b'; params.first().copied().unwrap_or(2) as usize],
         "not" => vec!['b'],
         "select" | "cond_swap" => vec!['b', 'n', 'n'],
@@ -190,6 +192,21 @@ impl<T: CircuitField + Ord> Circuit<T> for OpCircuit<T> {
                 &[(p(0), ns[0].clone()), (p(1), ns[1].clone()), (p(2), ns[2].clone())],
                 p(3),
             )?)),
+            "arith_src" => {
+                // mode 1: the second operand is the fixed-constant cell of value c, mode 2: the first one is
+                let fixed = if pu(3) != 0 { Some(ng.assign_fixed(&mut l, p(4))?) } else { None };
+                let (a, b) = match pu(3) {
+                    0 => (ns[0].clone(), ns[1].clone()),
+                    1 => (ns[0].clone(), fixed.unwrap()),
+                    _ => (fixed.unwrap(), ns[0].clone()),
+                };
+                let r = match pu(0) {
+                    0 => ng.add(&mut l, &a, &b)?,
+                    1 => ng.sub(&mut l, &a, &b)?,
+                    _ => ng.mul(&mut l, &a, &b, if pu(1) == 1 { Some(p(2)) } else { None })?,
+                };
+                outs.push(Out::N(r));
+            }
             "add_and_mul" => outs.push(Out::N(ng.add_and_mul(&mut l, (p(0), &ns[0]), (p(1), &ns[1]), (p(2), &ns[2]), p(3), p(4))?)),
             "is_zero" => outs.push(Out::B(ng.is_zero(&mut l, &ns[0])?)),
             "is_equal" => outs.push(Out::B(ng.is_equal(&mut l, &ns[0], &ns[1])?)),
